@@ -16,7 +16,9 @@ WHICH = "C06"
 CFGS = ["compact", "pretty:default:semi", "pretty:default:nosemi", "pretty:tab:semi", "pretty:tab:nosemi", "pretty:0:semi", "pretty:0:nosemi", "pretty:4:nosemi", "pretty:8:semi"]
 TRACED = ["compact", "pretty:default:semi", "pretty:tab:nosemi"]
 MODEL = ["compact", "pretty:default:semi", "pretty:tab:nosemi"]
-TEXTS = [" x", "x", " a = 1;", ' "q', " // y", "/", " }", " t  ", " wrap `x", " caf\xc3\xa9 \xe2\x86\x92 \xe4\xb8\xad"]
+TEXTS = [" x", "x", " a = 1;", ' "q', " // y", "/", " }", " t  ", " wrap `x", " caf\xc3\xa9 \xe2\x86\x92 \xe4\xb8\xad",
+         # characters next to the line/paragraph separators (U+202A.., U+2038..), NEL, NBSP, BOM inside a comment
+         " TODO\xe2\x80\xbc a\xe2\x80\xaf! b()", " n\xc2\x85e\xc2\xa0l\xef\xbb\xbf z\xe2\x80\xaa\xe2\x80\xb9q\xe2\x80\xba"]
 
 
 def wcfg(name):
